@@ -8,13 +8,16 @@ JSON values (ordered key/value lists with duplicates, see Model/Json.lean); `pri
 `serde_json::to_string`.  The only hypothesis on an action is `Action.WF`: its two
 `LinkedHashSet`s are duplicate-free – an invariant of the Rust type (`deAction_wf`,
 `linked_hash_set_nodup`), not an assumption about the library's logic.  For a request the
-hypothesis `Request.WF P` says its two opaque atoms (`IpAddr`, `DateTime<Utc>`) are canonical
-texts that their parsers `P` map to themselves (print/parse law of std and chrono, checked by the
-harness on every atom it meets).
+hypothesis `Request.WF` says that `created_at` denotes an instant chrono can represent (calendar and
+clock fields in range) – again an invariant of the Rust type (`deRequest_wf`).  `IpAddr` and
+`DateTime<Utc>` are concrete values with models of their `Display` / `Serialize` output and of the
+readers on canonical texts (Model/JsonAtoms.lean; `ip_print_parse`, `datetime_print_parse`); the real
+parsers' behaviour on non-canonical spellings is an oracle `P : Codec` of which nothing is assumed.
 -/
 import RioModel.Proofs.JsonAction
 import RioModel.Proofs.JsonSchema
 import RioModel.Proofs.JsonText
+import RioModel.Proofs.JsonAtoms
 set_option linter.unusedSimpArgs false
 
 namespace Rio.C06
@@ -139,59 +142,32 @@ theorem deAction_key_order (kvs kvs' : List (String × Json)) (hp : kvs.Perm kvs
 
 /-! ### Requests -/
 
-/-- A request restored from its JSON is the same request … -/
-theorem request_roundtrip (P : Codec) (q : Request) (h : q.WF P) :
+/-- `IpAddr::from_str` reads back what `Display` wrote, for every IPv4 and IPv6 address
+(IPv4-mapped form, `::` compression of the first longest zero run, lower-case hex). -/
+theorem ip_print_parse (x : Ip) : parseIp (showIp x) = some x := parseIp_showIp x
+
+/-- chrono reads back what `Serialize` wrote, for every representable UTC instant (years with
+sign and more than four digits, leap seconds, 0 / 3 / 6 / 9 fractional digits). -/
+theorem datetime_print_parse (d : DateTime) (h : d.Valid) : parseDt (showDt d) = some d :=
+  parseDt_showDt d h
+
+/-- A request restored from its JSON is the same request, whatever the oracle `P` answers … -/
+theorem request_roundtrip (P : Codec) (q : Request) (h : q.WF) :
     deRequest P (serRequest q) = some q :=
   Rio.Json.request_roundtrip P q h
 
 /-- … so it matches the same rules on any router (`obs` is an arbitrary function of the
 request: `Router::match_request`, `rebuild_request`, the action computed from it …), and
 re-serialises to the same text. -/
-theorem request_behaviour {β : Type} (P : Codec) (obs : Request → β) (q : Request) (h : q.WF P) :
+theorem request_behaviour {β : Type} (P : Codec) (obs : Request → β) (q : Request) (h : q.WF) :
     ∃ q', deRequest P (serRequest q) = some q' ∧ obs q' = obs q ∧
       print (serRequest q') = print (serRequest q) :=
   ⟨q, request_roundtrip P q h, rfl, rfl⟩
 
-/-- The law of the atom codecs the harness checks: a canonical text parses to itself. -/
-def Codec.Canonical (P : Codec) : Prop :=
-  (∀ s c, P.parseIp s = some c → P.parseIp c = some c) ∧
-  (∀ s c, P.parseDt s = some c → P.parseDt c = some c)
-
-/-- Under that law every request obtained by deserialisation is well-formed (so `Request.WF`
-holds of whatever a proxy holds, and the round trip can be iterated). -/
-theorem deRequest_wf (P : Codec) (hP : Codec.Canonical P) (j : Json) (q : Request)
-    (h : deRequest P j = some q) : q.WF P := by
-  have atomOpt : ∀ (parse : String → Option String), (∀ s c, parse s = some c → parse c = some c) →
-      ∀ (v : Json) (o : Option String), deOption (deAtom parse) v = some o →
-        ∀ c, o = some c → parse c = some c := by
-    intro parse hlaw v o hv c hc
-    subst hc
-    cases v with
-    | str s =>
-      simp only [deOption, deAtom, Option.map_eq_some_iff] at hv
-      obtain ⟨c', hc', hcc⟩ := hv
-      cases hcc
-      exact hlaw s c hc'
-    | null => simp [deOption] at hv
-    | _ => simp [deOption, deAtom] at hv
-  have atomField : ∀ (parse : String → Option String), (∀ s c, parse s = some c → parse c = some c) →
-      ∀ (kvs : List (String × Json)) (k : String) (o : Option String),
-        optField (deAtom parse) kvs k = some o → ∀ c, o = some c → parse c = some c := by
-    intro parse hlaw kvs k o hv c hc
-    unfold optField at hv
-    split at hv
-    · simp only [Option.some.injEq] at hv; subst hv; cases hc
-    · exact atomOpt parse hlaw _ o hv c hc
-    · exact absurd hv (by simp)
-  unfold deRequest at h
-  split at h
-  · simp only [Option.bind_eq_bind, Option.bind_eq_some_iff, Option.pure_def, Option.some.injEq] at h
-    obtain ⟨_, _, _, _, _, _, _, _, _, _, _, _, ra, hra, ca, hca, _, _, rfl⟩ := h
-    exact ⟨atomField _ hP.1 _ _ ra hra, atomField _ hP.2 _ _ ca hca⟩
-  · simp only [Option.bind_eq_bind, Option.bind_eq_some_iff, Option.pure_def, Option.some.injEq] at h
-    obtain ⟨_, _, _, _, _, _, _, _, _, _, _, _, ra, hra, ca, hca, _, _, rfl⟩ := h
-    exact ⟨atomOpt _ hP.1 _ ra hra, atomOpt _ hP.2 _ ca hca⟩
-  · exact absurd h (by simp)
+/-- Every request obtained by deserialisation is well-formed (so `Request.WF` holds of whatever a
+proxy holds, and the round trip can be iterated) – no law of the oracle is needed. -/
+theorem deRequest_wf (P : Codec) (j : Json) (q : Request) (h : deRequest P j = some q) : q.WF :=
+  Rio.Json.deRequest_wf P j q h
 
 /-! ### The text level: what travels from the agent to the proxy is a string
 
@@ -225,7 +201,7 @@ theorem action_text_injective (a b : Action) (ha : a.WF) (hb : b.WF)
   exact (Option.some.inj h1).symm
 
 /-- Requests on the text level. -/
-theorem request_text_roundtrip (P : Codec) (q : Request) (h : q.WF P) :
+theorem request_text_roundtrip (P : Codec) (q : Request) (h : q.WF) :
     deRequestText P (print (serRequest q)).toList = some q := by
   simp only [print, String.toList_ofList, deRequestText,
     parseText_render _ (printable_serRequest q), Option.bind_some]
@@ -293,9 +269,10 @@ round trip (faithfully to `LinkedHashSet::insert`) reorders it. -/
 example : deSet (serSet ["a", "b", "a"]) = some ["b", "a"] := by
   simp [deSet, serSet, mapOpt, deString, insertBack, List.erase]
 
+/-- an oracle that knows nothing: the theorems do not depend on it -/
 def exCodec : Codec where
-  parseIp := fun s => if s == "::1" ∨ s == "0:0:0:0:0:0:0:1" then some "::1" else none
-  parseDt := fun s => if s == "2024-01-02T03:04:05Z" then some s else none
+  parseIp := fun _ => none
+  parseDt := fun _ => none
 
 def exRequest : Request where
   path_and_query_skipped := ⟨"/x?a=1", some "/x?a=1", some "utm_source=b", "/x?a=1&utm_source=b"⟩
@@ -304,29 +281,17 @@ def exRequest : Request where
   scheme := none
   method := some "GET"
   headers := [⟨"X-A", "1"⟩, ⟨"x-a", "é"⟩]
-  remote_addr := some "::1"
-  created_at := some "2024-01-02T03:04:05Z"
+  remote_addr := some (.v6 ⟨[0x2001, 0xdb8, 0, 0, 1, 0, 0, 1], rfl⟩)
+  created_at := some ⟨2016, 12, 31, 23, 59, 60, 500000000⟩
   sampling_override := some false
 
-example : exRequest.WF exCodec := by
-  constructor
-  · intro ip h; simp [exRequest] at h; subst h; simp [exCodec]
-  · intro dt h; simp [exRequest] at h; subst h; simp [exCodec]
+example : exRequest.WF := by decide
 
-example : Codec.Canonical exCodec := by
-  constructor
-  · intro s c h
-    simp only [exCodec] at h ⊢
-    split at h
-    · cases h; simp
-    · cases h
-  · intro s c h
-    simp only [exCodec] at h ⊢
-    split at h
-    · rename_i hs
-      cases h
-      have : s = "2024-01-02T03:04:05Z" := by simpa using hs
-      simp [this]
-    · cases h
+example : deRequest exCodec (serRequest exRequest) = some exRequest :=
+  request_roundtrip exCodec exRequest (by decide)
+
+/-- the validity hypothesis is a real restriction: the 30th of February is not an instant (chrono
+cannot hold it, and its text is refused by both readers) -/
+example : ¬ (⟨2024, 2, 30, 0, 0, 0, 0⟩ : DateTime).Valid := by decide
 
 end Rio.C06
